@@ -73,18 +73,39 @@ type wkbDest struct {
 
 var wkbDests = []wkbDest{
 	{"nil", func() (interface{}, func() orb.Geometry) { return nil, nil }},
-	{"Point", func() (interface{}, func() orb.Geometry) { var v orb.Point; return &v, func() orb.Geometry { return v } }},
-	{"MultiPoint", func() (interface{}, func() orb.Geometry) { var v orb.MultiPoint; return &v, func() orb.Geometry { return v } }},
-	{"LineString", func() (interface{}, func() orb.Geometry) { var v orb.LineString; return &v, func() orb.Geometry { return v } }},
+	{"Point", func() (interface{}, func() orb.Geometry) {
+		var v orb.Point
+		return &v, func() orb.Geometry { return v }
+	}},
+	{"MultiPoint", func() (interface{}, func() orb.Geometry) {
+		var v orb.MultiPoint
+		return &v, func() orb.Geometry { return v }
+	}},
+	{"LineString", func() (interface{}, func() orb.Geometry) {
+		var v orb.LineString
+		return &v, func() orb.Geometry { return v }
+	}},
 	{"MultiLineString", func() (interface{}, func() orb.Geometry) {
 		var v orb.MultiLineString
 		return &v, func() orb.Geometry { return v }
 	}},
 	{"Ring", func() (interface{}, func() orb.Geometry) { var v orb.Ring; return &v, func() orb.Geometry { return v } }},
-	{"Polygon", func() (interface{}, func() orb.Geometry) { var v orb.Polygon; return &v, func() orb.Geometry { return v } }},
-	{"MultiPolygon", func() (interface{}, func() orb.Geometry) { var v orb.MultiPolygon; return &v, func() orb.Geometry { return v } }},
-	{"Collection", func() (interface{}, func() orb.Geometry) { var v orb.Collection; return &v, func() orb.Geometry { return v } }},
-	{"Bound", func() (interface{}, func() orb.Geometry) { var v orb.Bound; return &v, func() orb.Geometry { return v } }},
+	{"Polygon", func() (interface{}, func() orb.Geometry) {
+		var v orb.Polygon
+		return &v, func() orb.Geometry { return v }
+	}},
+	{"MultiPolygon", func() (interface{}, func() orb.Geometry) {
+		var v orb.MultiPolygon
+		return &v, func() orb.Geometry { return v }
+	}},
+	{"Collection", func() (interface{}, func() orb.Geometry) {
+		var v orb.Collection
+		return &v, func() orb.Geometry { return v }
+	}},
+	{"Bound", func() (interface{}, func() orb.Geometry) {
+		var v orb.Bound
+		return &v, func() orb.Geometry { return v }
+	}},
 }
 
 // scanners (with their destinations) that live for the whole run
